@@ -293,3 +293,21 @@ Definition conc_stats (c : conc_case) : nat * nat * nat :=
     outcomes; no hook involved) against [api_ok] *)
 Definition api_violations (cs : list (Z * list acall)) : list nat :=
   positions (map (fun c => negb (api_ok (fst c) (snd c))) cs).
+
+(** "accepted again after it expired", judged from outside with slack S (in windows): a call
+    answered "duplicate" is STALE when it has a possible cause (a "new" call with its key that
+    started no later than the duplicate ended) but EVERY possible cause had ended at least S
+    windows before the duplicate started — the key was still remembered S - 1 windows after
+    its expiry.  By C14_expired_key_reaccepted_partial (contrapositive) this means that no
+    sweep carrying a time later than the key's expiry ran in all that time: the theorem's
+    oracle premise failed for S - 1 windows, where the documentation promises 1/2.  Only
+    clock readings of the driver are used (start/end of its own calls).  Returns the keys. *)
+Definition stale_dup (S w : Z) (cs : list acall) (b : acall) : bool :=
+  let causes := filter (fun a => N.eqb (ac_key a) (ac_key b) && negb (ac_dup a) && (ac_start a <=? ac_end b)) cs in
+  ac_dup b && negb (Nat.eqb (length causes) 0)
+  && forallb (fun a => ac_end a + S * w <=? ac_start b) causes.
+Definition stale_keys (S w : Z) (cs : list acall) : list N :=
+  nodup N.eq_dec (map ac_key (filter (stale_dup S w cs) cs)).
+Definition api_stale (S : Z) (cs : list (Z * list acall)) : list (nat * list N) :=
+  flat_map (fun p => match stale_keys S (fst (snd p)) (snd (snd p)) with [] => [] | ks => [(fst p, ks)] end)
+           (combine (seq 0 (length cs)) cs).
